@@ -17,7 +17,7 @@ RULE = ("All 682 supported commands (exhaustive) x 14 context templates (alone, 
         "letter, digit, blank, brace group, punctuation, '^', '_', another command, itself), the 26 braced commands "
         "and braced near-misses, unknown commands, every special sequence (^ _ >= <= newline \\pagenumber \\totalpage "
         "\\pagefield) and their overlaps, Hypothesis-generated mixed texts; placed in body cells (per-cell "
-        "text_convert matrix), title, subline, column header, footnote, source, page header and footer, each with "
+        "text_convert matrix; also full per-cell matrices over 1-3 columns, paginated, next to a removed page_by column), title, subline, column header, footnote, source, page header and footer, each with "
         "its default text_convert and with the override. Oracle: an independent reference converter written from "
         "the statement and the frozen command table produces the expected RTF fragment; both it and the emitted "
         "run are reduced by the same independent reader to (text runs with super/sub state, line breaks, \\chpgn, "
@@ -172,7 +172,13 @@ def _text(draw):
 
 @st.composite
 def _case(draw):
-    where = draw(st.sampled_from(["body"] * 5 + ["title", "subline", "header", "footnote", "source", "page_header", "page_footer"]))
+    where = draw(st.sampled_from(["body"] * 4 + ["body_matrix"] * 2 + ["title", "subline", "header", "footnote", "source", "page_header", "page_footer"]))
+    if where == "body_matrix":
+        # a full text_convert matrix over 1-3 columns, paginated, optionally next to a page_by column that is removed
+        n, k = draw(st.integers(2, 10)), draw(st.integers(1, 3))
+        return {"where": "body_matrix", "texts": [[draw(_text()) for _ in range(k)] for _ in range(n)],
+                "convert": [[draw(st.booleans()) for _ in range(k)] for _ in range(n)],
+                "nrow": draw(st.sampled_from([3, 4, 6, 100000])), "group": draw(st.sampled_from([None, None, "first", "middle"]))}
     if where == "body":
         n = draw(st.integers(1, 12))
         return {"where": "body", "texts": [draw(_text()) for _ in range(n)], "convert": [draw(st.booleans()) for _ in range(n)]}
@@ -191,6 +197,19 @@ def budget(tier):
 def build_recipe(case):
     where, texts, conv = case["where"], case["texts"], case["convert"]
     n = len(texts)
+    if where == "body_matrix":
+        k = len(texts[0])
+        cols = [{"name": f"@N{j}", "dtype": "str", "values": [row[j] for row in texts]} for j in range(k)]
+        flags = [list(r) for r in conv]
+        body = {}
+        if case.get("group"):
+            at = 0 if case["group"] == "first" else min(1, k)
+            cols.insert(at, {"name": "@Ng", "dtype": "str", "values": [f"@G0:v{i // 3}" for i in range(n)]})
+            for r in flags:
+                r.insert(at, True)      # the flag grid covers the ORIGINAL columns
+            body["page_by"] = ["@Ng"]
+        body["text_convert"] = flags
+        return {"kind": "table", "page": {"nrow": case["nrow"]}, "sections": [{"df": {"cols": cols}, "body": body, "headers": "none"}]}
     if where == "body":
         cols = [{"name": "@N0", "dtype": "str", "values": list(texts)}]
         body = {"text_convert": {"t": list(conv)}}
@@ -223,7 +242,13 @@ def check(case) -> Result:
     d = out.doc
     conts = []          # (text container, input text, convert flag)
     eff = (lambda c: DEFAULT_CONVERT[where] if c is None else c)
-    if where == "body":
+    if where == "body_matrix":
+        rows = [it.block for pg in classify(d) for it in pg if it.role == "data"]
+        if len(rows) != len(texts) or any(len(r.cells) != len(texts[0]) for r in rows):
+            res.fail("structure", "body_matrix/row_or_cell_count", f"{len(rows)} rows for {len(texts)}; anomalies {d.anom[:2]}")
+            return res
+        conts = [(cell, t, c) for r, trow, crow in zip(rows, texts, conv) for cell, t, c in zip(r.cells, trow, crow)]
+    elif where == "body":
         rows = [b for pg in d.pages for b in pg if isinstance(b, Row)]
         if len(rows) != len(texts):
             res.fail("structure", "body/row_count", f"{len(rows)} rows for {len(texts)} texts; anomalies {d.anom[:2]}")
@@ -306,7 +331,12 @@ def check(case) -> Result:
             res.fail("conversion" if c else "verbatim", f"{where}/{classify_text(src)}", f"input {src!r} convert={c}: got {got} expected {first}")
         if c and (any(k in src for k in ("^", "_", ">=", "<=", "\\page", "\\total")) or TOKEN.search(src)) and len(src) > 2:
             nontriv = True
-    res.labels = ["where=" + where, "convert=" + ("mixed" if isinstance(conv, list) and len(set(conv)) > 1 else str(conv if not isinstance(conv, list) else conv[0]))]
+    if where == "body_matrix":
+        conv = [c for row in conv for c in row]
+        res.labels = ["paginated" if len(d.pages) > 1 else "one_page", "page_by_removed" if case.get("group") else "no_removed_column"]
+    else:
+        res.labels = []
+    res.labels += ["where=" + where, "convert=" + ("mixed" if isinstance(conv, list) and len(set(conv)) > 1 else str(conv if not isinstance(conv, list) else conv[0]))]
     res.nontrivial = nontriv
     return res
 
@@ -337,6 +367,12 @@ def reductions(case):
         if n <= 16:
             for i in range(n):
                 yield dict(case, texts=texts[:i] + texts[i + 1:], convert=(conv[:i] + conv[i + 1:]) if isinstance(conv, list) else conv)
+    if case.get("where") == "body_matrix":
+        if case.get("group"):
+            yield dict(case, group=None)
+        if case.get("nrow") != 100000:
+            yield dict(case, nrow=100000)
+        return
     for i, t in enumerate(texts[:8]):
         if len(t) > 1:
             for cut in (t[: len(t) // 2], t[len(t) // 2:], t[1:], t[:-1]):
